@@ -1,2 +1,32 @@
-From Coq Require Import List ZArith.
-From Gosk Require Import Base.Bytes Model.Asm.
+(** C14 - statements assemble independently of their neighbours (codegen level).
+    For ocodes whose bytes do not look at the output length or DollarPosition (everything except
+    ALIGNB and relative branches) the emission fold is a plain concatenation, from any starting
+    output and any origin: emitting A then B gives bytes(A) ++ bytes(B). *)
+From Coq Require Import List ZArith String Bool.
+From Gosk Require Import Base.Bytes Model.Ast Model.Asm Lemmas.AsmLemmas.
+Import ListNotations.
+Local Open Scope Z_scope.
+
+Theorem C14_codegen_concat : forall E m st dol osA osB bA dA bB dB,
+  forallb pos_indep osA = true -> forallb pos_indep osB = true ->
+  flat_gen E m st osA = Some (bA, dA) -> flat_gen E m st osB = Some (bB, dB) ->
+  codegen E m st dol [] false (osA ++ osB) = GOk (bA ++ bB) (dA || dB)
+  /\ codegen E m st dol [] false osA = GOk bA dA
+  /\ codegen E m st dol [] false osB = GOk bB dB.
+Proof.
+  intros E m st dol osA osB bA dA bB dB HA HB FA FB.
+  repeat split.
+  - rewrite (codegen_indep E m st dol (osA ++ osB) [] false (bA ++ bB) (dA || dB)).
+    + reflexivity.
+    + rewrite forallb_app, HA, HB. reflexivity.
+    + apply flat_gen_app; assumption.
+  - rewrite (codegen_indep E m st dol osA [] false bA dA HA FA). reflexivity.
+  - rewrite (codegen_indep E m st dol osB [] false bB dB HB FB). reflexivity.
+Qed.
+Print Assumptions C14_codegen_concat.
+
+(* earlier output is never rewritten: the fold only appends *)
+Theorem C14_append_only : forall E m st dol os acc d bs d',
+  codegen E m st dol acc d os = GOk bs d' -> exists tail, bs = acc ++ tail.
+Proof. exact codegen_prefix. Qed.
+Print Assumptions C14_append_only.
